@@ -84,7 +84,7 @@ theorem sound_pipeline_logic {m : Model (Ext K)} {t : K} (ht : 0 ≤ t) (maxStep
   intro c' hc'
   obtain ⟨c, hcm, l, hl, hcase⟩ := normalizedForBounds_memD _ _ hcs c' hc'
   have hsc := hm.cons c hcm
-  obtain ⟨_, hevl⟩ := hsc.lhs.normalize hl
+  have hevl := hsc.lhs.normalize_eval hl
   have hcH : constraintHolds ρ' c = true := by
     rw [constraintHolds_congr (ρ := ρ) (fun x hx => hag x (hx.elim (hsc.lhs.vars x) (hsc.rhs.vars x)))]
     exact hc c hcm
@@ -93,22 +93,36 @@ theorem sound_pipeline_logic {m : Model (Ext K)} {t : K} (ht : 0 ≤ t) (maxStep
     have h1 : eval ρ' c.lhs = some 1 := (constraintHolds_assert hA ρ').mp hcH
     refine ⟨1, 1, by rw [hevl ρ' hd']; exact h1, by simp only [hrhs]; exact eval_num_fin ρ' 1, ?_⟩
     simp only [hcmp, BoundsSem.cmpHolds]
-  · obtain ⟨_, hevr⟩ := hsc.rhs.normalize hr
-    obtain ⟨a, ha⟩ := hsc.lhs.defd ρ' hd'
-    obtain ⟨b, hb⟩ := hsc.rhs.defd ρ' hd'
-    have hcmp : cmpK c.cmp a b = true := by rwa [constraintHolds_arith hA ha hb] at hcH
+  · have hevr := hsc.rhs.normalize_eval hr
+    -- a comparison that holds has two defined sides
+    obtain ⟨a, b, ha, hb, hcmp⟩ : ∃ a b, eval ρ' c.lhs = some a ∧ eval ρ' c.rhs = some b ∧ cmpK c.cmp a b = true := by
+      have := hcH
+      simp only [constraintHolds, hA, Bool.false_eq_true, if_false] at this
+      cases ha : eval ρ' c.lhs with
+      | none => simp [ha] at this
+      | some a =>
+        cases hb : eval ρ' c.rhs with
+        | none => simp [ha, hb] at this
+        | some b => exact ⟨a, b, rfl, rfl, by simpa [ha, hb] using this⟩
     exact ⟨a, b, by rw [hevl ρ' hd']; exact ha, by rw [hevr ρ' hd']; exact hb, cmpHolds_of_cmpK hcmp⟩
 
 theorem GoodE.toPublished {m : Model (Ext K)} {an : Analyzer (Ext K)} {e : Exp (Ext K)}
     (htight : ∀ ρ : String → K, DomSat ρ (an.applyToDomain m.domain) → DomSat ρ m.domain)
     (h : GoodE m.domain e) : GoodE (an.applyToDomain m.domain) e :=
   ⟨fun x hx => (inScope_applyToDomain an m.domain x).mpr (h.vars x hx), h.fin,
-    fun ρ hd => h.lo ρ (htight ρ hd), fun ρ hd => h.defd ρ (htight ρ hd)⟩
+    fun ρ hd => h.nc ρ (htight ρ hd), fun ρ hd => h.defd ρ (htight ρ hd)⟩
+
+theorem GoodS.toPublished {m : Model (Ext K)} {an : Analyzer (Ext K)} {e : Exp (Ext K)}
+    (htight : ∀ ρ : String → K, DomSat ρ (an.applyToDomain m.domain) → DomSat ρ m.domain)
+    (h : GoodS m.domain e) : GoodS (an.applyToDomain m.domain) e :=
+  ⟨fun x hx => (inScope_applyToDomain an m.domain x).mpr (h.vars x hx), h.fin,
+    fun ρ hd => h.nc ρ (htight ρ hd)⟩
 
 theorem logicModel_applyToDomain {m : Model (Ext K)} (an : Analyzer (Ext K))
     (htight : ∀ ρ : String → K, DomSat ρ (an.applyToDomain m.domain) → DomSat ρ m.domain)
     (hm : LogicModel m m.domain) : LogicModel m (an.applyToDomain m.domain) :=
-  ⟨hm.obj.toPublished htight, fun c hc => ⟨(hm.cons c hc).lhs.toPublished htight, (hm.cons c hc).rhs.toPublished htight⟩⟩
+  ⟨hm.obj.toPublished htight, fun c hc => ⟨(hm.cons c hc).lhs.toPublished htight,
+    (hm.cons c hc).rhs.toPublished htight⟩⟩
 
 /-- `DomRel` and `BoxEnforced` for the `b`, `d` the pipeline computes, on a model with logic. -/
 theorem pipeline_hyps_logic {m : Model (Ext K)} {t : K} (ht : 0 ≤ t) (maxSteps : Nat)
@@ -133,6 +147,17 @@ theorem pipeline_hyps_logic {m : Model (Ext K)} {t : K} (ht : 0 ≤ t) (maxSteps
       rw [this]; exact hok.nodup
     · intro dv hdv hu
       exact (inScope_applyToDomain _ m.domain dv.name).mpr ⟨dv, hdv, rfl, hu⟩
+
+/-- the objective of a model that compiles has a value at every source-feasible assignment (definedness is a
+consequence of the successful compilation, not a hypothesis). -/
+theorem compile_obj_defined {m : Model (Ext K)} {t : K} (ht : 0 ≤ t) {maxSteps : Nat} {lm : LinModel (Ext K)}
+    (h : Compile.linearize m (.fin t) maxSteps = .ok lm)
+    (hm : LogicModel m m.domain) (hsh : AssertShape m) (hok : DeclOK m.domain)
+    (ht1 : t < 1 ∨ NoIntVars m.domain) (ρ : String → K) (hs : srcFeasible m ρ = true) :
+    ∃ v, eval ρ m.objective = some v := by
+  obtain ⟨an, han, hlin⟩ := (compile_ok_iff m _ maxSteps lm).mp h
+  obtain ⟨hdom, hbox⟩ := pipeline_hyps_logic ht maxSteps hm hsh hok han ht1
+  exact (logicModel_applyToDomain an hdom.tight hm).obj_defined hlin ρ (hdom.sound ρ hs)
 
 theorem compile_feasible_iff_logic {m : Model (Ext K)} {t : K} (ht : 0 ≤ t) {maxSteps : Nat} {lm : LinModel (Ext K)}
     (h : Compile.linearize m (.fin t) maxSteps = .ok lm)
